@@ -258,7 +258,10 @@ def renderURun (localId : ClusterId) (rem : List ClusterId) (login : ClusterId) 
 
 def step (line : String) : String :=
   match fields line with
-  | [op, kind0, loc, max, remotes, opts, filters, world, scripts] =>
+  | [op0, kind0, loc, max, remotes, opts, filters, world, scripts] =>
+    -- `slist<N>`: the Go driver makes the per-cluster goroutines rendezvous before their first call;
+    -- the model's result does not depend on any interleaving (Props/C20_Proto), so it is `list`
+    let op := if op0.startsWith "slist" && ((op0.drop 5).toNat?.any (fun n => 1 ≤ n && n ≤ 64)) then "list" else op0
     if op != "list" && op != "hlist" then "bad-op" else
     let render : Run → String := fun r =>
       if op == "hlist" then
